@@ -7,6 +7,7 @@ import re
 
 import abbr_gen as g
 import format_util as fu
+import c12_opts as co
 from markup_util import run_cases, canon_cfg, enc_config, decode_res, NotModelled, mentions_lorem
 from common import enc_str
 
@@ -21,7 +22,7 @@ def oracle_cosmetic(out1, out2):
 
 
 def oracle_depth(out, cfg):
-    return fu.depth_check(out, fu.resolved_options(cfg))
+    return fu.depth_check(out, co.in_force(cfg))
 
 
 def oracle_comments(out_on, out_off, cfg_on):
@@ -33,7 +34,7 @@ def oracle_comments(out_on, out_off, cfg_on):
             if x != y:
                 return 'without its comments item %d is %r, comment-off output has %r' % (i, x, y)
         return 'without its comments the output has %d items, the comment-off output %d' % (len(a), len(b))
-    o = fu.resolved_options(cfg_on)
+    o = co.in_force(cfg_on)
     if '<!--' not in out_off and '<!--' not in o['output.newline'] + o['output.indent'] + o['output.baseIndent']:
         # where the added text sits (C12_comments_additive): every comment stands directly after a closing tag
         # (comment.after) or directly before an opening tag (comment.before)
@@ -92,7 +93,7 @@ def oracle_selfclose(out_a, out_b):
 def classify_selfclose(abbr, cfg_a, cfg_b, out_a, out_b):
     """Known class: a boolean attribute written without value under compactBoolean gets `=""`
     as soon as the self-closing style is not `html` (push_attribute tests the style)."""
-    oa, ob = fu.resolved_options(cfg_a), fu.resolved_options(cfg_b)
+    oa, ob = co.in_force(cfg_a), co.in_force(cfg_b)
     if oa.get('output.compactBoolean') and (oa['output.selfClosingStyle'] == 'html') != (ob['output.selfClosingStyle'] == 'html'):
         # erase the `=""` / `=''` of valueless attributes and compare again
         def norm(s):
@@ -110,12 +111,40 @@ def depth_safe(abbr):
     return '<' not in abbr
 
 
+# Part of the depth-level abbreviations is built around the names the documented option DEFAULTS mention (html in
+# formatSkip, body in formatForce) and around the document snippets: only an explicit option value tells them apart
+# from any other name.
+P_DEFAULT_LISTED = 0.35
+
+
+def rand_depth_abbr(rng):
+    """Depth-level statement (what the indentation oracle can read) over the plain names plus, in about a third of
+    the cases, html / body / head at random places and/or a document snippet or `html>`, `html>body>` ... prefix."""
+    if rng.random() >= P_DEFAULT_LISTED:
+        return g.render(fu.rand_abbr(rng, 'depth')), False
+    names = g.safe_names()
+    names = names + co.DEFAULT_LISTED_NAMES * max(1, len(names) // 9)      # ~ a quarter of all picks
+    n = rng.randint(1, 8)
+    st = g.rand_stmt(rng, names, n, max_depth=3, rep_max=3, decorate=fu.decorator(rng, 'depth'))
+    abbr = g.render(st)
+    k = rng.random()
+    if k < 0.25:
+        abbr = rng.choice(co.DOCUMENT_SNIPPETS) + '>' + abbr
+    elif k < 0.5:
+        abbr = rng.choice(['html>', 'html>body>', 'html>head+body>', 'html[lang=en]>', 'body>', 'html#i.c>']) + abbr
+    return abbr, True
+
+
 def make_group(rng, kind_bias=None):
     """One abbreviation with the configurations it is run under.
     Returns dict(abbr, cfgs={name: cfg}, checks=[(kind, name_a, name_b)])."""
     level = 'depth' if rng.random() < 0.35 else 'c12'
-    st = fu.rand_abbr(rng, level)
-    abbr = g.render(st)
+    listed = False
+    if level == 'depth':
+        abbr, listed = rand_depth_abbr(rng)
+    else:
+        st = fu.rand_abbr(rng, level)
+        abbr = g.render(st)
     names = sorted(set(re.findall(r'[a-z][a-z0-9:\-]*', abbr)))[:8]
     base = fu.rand_base(rng)
     k1 = fu.rand_cosmetic(rng, names)
@@ -124,10 +153,15 @@ def make_group(rng, kind_bias=None):
     checks = [('cosmetic', 'a', 'b')]
     if level == 'depth':
         d = fu.with_options(base, k1)
-        d['options'].update({'output.format': True, 'output.formatSkip': [],
+        # "no element exempted through output.formatSkip": the list is given explicitly, empty or naming only
+        # elements the output does not contain
+        skip = [] if rng.random() < 0.75 else rng.sample(co.ABSENT_NAMES, rng.randint(1, 2))
+        d['options'].update({'output.format': True, 'output.formatSkip': skip,
                              'output.indent': rng.choice(['\t', '  ', '    ']),
                              'output.newline': rng.choice(['\n', '\r\n'])})
-        if '/' in abbr and fu.resolved_options(d)['output.selfClosingStyle'] == 'html':
+        if rng.random() < 0.2:
+            d['options']['output.formatForce'] = rng.choice([[], ['html'], ['p', 'body']])
+        if ('/' in abbr or listed) and co.in_force(d)['output.selfClosingStyle'] == 'html':
             d['options']['output.selfClosingStyle'] = rng.choice(['xhtml', 'xml'])
         if d['options'].get('comment.enabled'):
             d['options'].pop('comment.before', None)
@@ -135,15 +169,21 @@ def make_group(rng, kind_bias=None):
         cfgs['d'] = d
         checks.append(('depth', 'd', None))
     src = rng.choice(sorted(cfgs))
-    on = fu.with_options(cfgs[src], {'comment.enabled': True})
-    off = fu.with_options(cfgs[src], {'comment.enabled': False})
+    con = {'comment.enabled': True}
+    if rng.random() < 0.3:
+        # the trigger list / templates given explicitly, the empty list and the empty templates included
+        con['comment.trigger'] = rng.choice([[], [], ['id'], ['class'], ['title'], ['id', 'class', 'title'], ['data-v']])
+        if rng.random() < 0.3:
+            con['comment.before'], con['comment.after'] = rng.choice(fu.COMMENT_TEMPLATES + [('', '')])
+    on = fu.with_options(cfgs[src], con)
+    off = fu.with_options(on, {'comment.enabled': False})
     cfgs['con'], cfgs['coff'] = on, off
     checks.append(('comments', 'con', 'coff'))
     styles = rng.sample(['html', 'xhtml', 'xml'], 2)
     cfgs['s1'] = fu.with_options(cfgs[src], {'output.selfClosingStyle': styles[0]})
     cfgs['s2'] = fu.with_options(cfgs[src], {'output.selfClosingStyle': styles[1]})
     checks.append(('selfclose', 's1', 's2'))
-    return {'abbr': abbr, 'cfgs': cfgs, 'checks': checks}
+    return {'abbr': abbr, 'cfgs': cfgs, 'checks': checks, 'listed': listed}
 
 
 FIXED = [
@@ -243,12 +283,35 @@ def classify_alignment(out, cfg, bad):
     if not m:
         return None
     ooff = int(m.group(2))
-    nl = fu.resolved_options(cfg)['output.newline']
+    nl = co.in_force(cfg)['output.newline']
     ls = out.rfind(nl, 0, ooff)
     ls = 0 if ls < 0 else ls + len(nl)
     if out[ls:ooff].strip(' \t') != '':
         return 'C12:close-aligned-unformatted-inline-parent'
     return None
+
+
+def cover_option_classes(ctx, kind, gr, cfg_a):
+    """Evidence for the explicit-value classes: which checks ran with an explicitly empty list / template and on
+    abbreviations with a name of the documented defaults."""
+    o = cfg_a.get('options') or {}
+    if kind == 'depth':
+        skip = o.get('output.formatSkip')
+        ctx.cover('C12:depth-formatSkip-%s' % ('explicit-empty' if skip == [] else 'absent-names-only' if skip else 'unset'))
+        if gr.get('listed'):
+            ctx.cover('C12:depth-default-listed-name-or-document-snippet')
+        if o.get('output.formatForce') == []:
+            ctx.cover('C12:depth-formatForce-explicit-empty')
+    elif kind == 'comments':
+        if o.get('comment.trigger') == []:
+            ctx.cover('C12:comments-trigger-explicit-empty')
+        elif 'comment.trigger' in o:
+            ctx.cover('C12:comments-trigger-explicit')
+        if o.get('comment.before') == '' and o.get('comment.after') == '':
+            ctx.cover('C12:comments-templates-explicit-empty')
+    elif kind == 'cosmetic':
+        if o.get('output.formatSkip') == [] or o.get('output.formatForce') == []:
+            ctx.cover('C12:cosmetic-list-option-explicit-empty')
 
 
 def load_corpus():
@@ -344,6 +407,15 @@ def run(ctx):
         '(callback event sequences compared). Oracles on the implementation output only (independent tag scanner): '
         'cosmetic (same tags/attributes/comments/text after removing blanks), depth (format on, formatSkip empty: '
         'indent units = open elements, closing-tag lines one less), comments on/off, self-closing styles. '
+        'The option values the oracles use (newline, indent, baseIndent, comment templates and trigger list, self-closing '
+        'style) are NOT read back from the library: documented default < documented syntax preset < the explicit value of '
+        'the case (harness/c12_opts.py), so an explicit value the library fails to honour shows. '
+        'Explicit values include the empty ones: formatSkip / formatForce / comment.trigger given as [], comment '
+        'templates as \'\', inlineBreak 0 -- swept over skeletons around the names the documented defaults mention '
+        '(html, body, head) and the document snippets (!, doc, doc4, html:xt ...) in all six syntaxes, and drawn at '
+        'random: about a third of the depth abbreviations contain html/body/head or hang below a document snippet; '
+        'the depth configuration gives formatSkip explicitly as [] (75%) or as a list of names absent from the output; '
+        'the comment-on configuration gives comment.trigger explicitly (empty list included) in 30% of the groups. '
         'non-trivial = at least two elements in the output; distinct by (abbreviation, configuration).')
     rng = ctx.rng
     groups = []
@@ -380,6 +452,31 @@ def run(ctx):
                            'checks': [('cosmetic', 'a', 'b'), ('depth', 'd', None)]})
             n_ex += 1
     ctx.cov['exhaustive_skeletons'] = {'max_units': max_units, 'statements': n_ex}
+    # explicit empty values: every list / string option of the statement given as [] / '' / 0 / False, on skeletons
+    # around the names the documented defaults mention (html, body) and the document snippets, in every syntax
+    n_ee = 0
+    for syn in fu.HTML_SYNTAXES:
+        for k, abbr in enumerate(co.explicit_empty_abbrs()):
+            for j, opts in enumerate(co.EXPLICIT_EMPTY):
+                if (k + j) % 2 and ctx.tier == 'quick' and j:
+                    continue
+                d = {'syntax': syn, 'options': dict(opts)}
+                a = {'syntax': syn, 'options': {}}      # same non-cosmetic options, every formatting option unset
+                if co.in_force(d)['output.selfClosingStyle'] == 'html':
+                    d['options']['output.selfClosingStyle'] = a['options']['output.selfClosingStyle'] = 'xhtml'
+                groups.append({'abbr': abbr, 'cfgs': {'a': a, 'd': d},
+                               'checks': [('cosmetic', 'a', 'd'), ('depth', 'd', None)], 'listed': True, 'explicit_empty': True})
+                n_ee += 1
+            for j, opts in enumerate(co.EXPLICIT_EMPTY_COMMENT):
+                if (k + j) % 2 and ctx.tier == 'quick':
+                    continue
+                on = {'syntax': syn, 'options': dict(opts, **{'comment.enabled': True})}
+                off = {'syntax': syn, 'options': dict(opts, **{'comment.enabled': False})}
+                groups.append({'abbr': abbr, 'cfgs': {'con': on, 'coff': off}, 'checks': [('comments', 'con', 'coff')],
+                               'listed': True, 'explicit_empty': True})
+                n_ee += 1
+    ctx.cov['explicit_empty_sweep'] = {'abbreviations': len(co.explicit_empty_abbrs()), 'syntaxes': len(fu.HTML_SYNTAXES),
+                                       'groups': n_ee}
     n_fixed = len(groups)
     n = 700 if ctx.tier == 'quick' else 12000
     for _ in range(n):
@@ -400,6 +497,7 @@ def run(ctx):
             cfg_b = gr['cfgs'][nb] if nb else None
             bad, cls = evaluate(kind, abbr, cfg_a, cfg_b, ra, rb)
             ctx.cover('C12:check-' + kind)
+            cover_option_classes(ctx, kind, gr, cfg_a)
             if ra[0] == 'ok':
                 syn = cfg_a.get('syntax', 'html')
                 ctx.cover('C12:syntax-' + syn)
